@@ -48,11 +48,11 @@ def c05(work, tier, seed, replay):
     if tier == "quick":
         plan = [(s, st, True) for s in SCEN2 for st in ("InMem", "Sql1")] + [("Sc3_TofuForkRead", "InMem", True), ("Sc3_TofuForkRead", "Sql1", True),
                                                                             ("Sc3_GrowGrowGrow", "Sql1", True), ("Sc_TofuFork", "InMem", False), ("Sc_GrowFork", "Sql1", False)]
-        sim4, free_runs, free_shape = 200, 60, (4, 8)
+        sim4, free_shapes = 200, [(60, 4, 8)]
     else:
         plan = ([(s, st, True) for s in SCEN2 for st in ("InMem", "Sql1")] + [(s, st, True) for s in SCEN3 for st in ("InMem", "Sql1")]
                 + [(s, st, False) for s in ("Sc_TofuFork", "Sc_GrowFork", "Sc_GrowRefresh", "Sc_TofuRead", "Sc_GrowRead") for st in ("InMem", "Sql1")])
-        sim4, free_runs, free_shape = 3000, 400, (5, 10)
+        sim4, free_shapes = 3000, [(300, 5, 10), (30, 8, 8)]     # (runs, goroutines, operations each); the judge's search is exponential in the goroutines
     by_store = {"InMem": [], "Sql1": []}
     nsched = 0
     for scen, store, eager in plan:
@@ -88,11 +88,12 @@ def c05(work, tier, seed, replay):
         rejected += [(store, r, tp) for r in judge_in_chunks(work, rep, tp, 4, "gated-" + store)]
         rep.cov["traces_validated_against_impl"] += len(runs)
     # free-running goroutines under the race detector
-    for store in ("InMem", "Sql1"):
+    for store, (free_runs, ng, nops) in [(st_, sh_) for st_ in ("InMem", "Sql1") for sh_ in free_shapes]:
+        free_shape = (ng, nops)
         runs = []
         for j in range(free_runs):
-            runs.append({"id": "free%d" % j, "mode": "free", "db0": db0_of("none"), "prog": random_programs(rng, free_shape[0], free_shape[1]), "sched": []})
-        rp, tp = work.path("free-%s.jsonl" % store), work.path("free-%s.ndjson" % store)
+            runs.append({"id": "free%dx%d-%d" % (ng, nops, j), "mode": "free", "db0": db0_of("none"), "prog": random_programs(rng, ng, nops), "sched": []})
+        rp, tp = work.path("free-%s-%d.jsonl" % (store, ng)), work.path("free-%s-%d.ndjson" % (store, ng))
         write_runs(rp, OPS_PARAMS, runs)
         try:
             o, dt = run_driver(["ops", "-in", rp, "-out", tp, "-store", STORES[store], "-seed", str(seed), "-workers", "4", "-dir", work.sub("db")], race=True,
@@ -107,7 +108,7 @@ def c05(work, tier, seed, replay):
                 continue
             raise
         rep.notes.append("free/" + o.strip())
-        rejected += [(store, r, tp) for r in judge_in_chunks(work, rep, tp, free_shape[0], "free-" + store)]
+        rejected += [(store, r, tp) for r in judge_in_chunks(work, rep, tp, free_shape[0], "free-%s-%d" % (store, ng))]
         rep.cov["traces_validated_against_impl"] += len(runs)
         rep.cov["free_running_runs"] = rep.cov.get("free_running_runs", 0) + len(runs)
     rep.cov["drift"] = drift
@@ -117,10 +118,9 @@ def c05(work, tier, seed, replay):
                       % (r["run"], store, r["i"]), {"property": "C05", "store": store, "run": r["run"], "events": evs})
     n_ev = 0
     distinct = set()
-    for store in ("InMem", "Sql1"):
-        for kind in ("ops", "free"):
-            tp = work.path("%s-%s.ndjson" % (kind, store))
-            if os.path.exists(tp):
+    import glob
+    for tp in sorted(glob.glob(work.path("ops-*.ndjson")) + glob.glob(work.path("free-*.ndjson"))):
+            if True:
                 for e in read_ndjson(tp):
                     if e["e"] == "ret":
                         n_ev += 1
